@@ -21,3 +21,12 @@ class CompilerSyntaxError(CompilerError):
         self.line = line
         self.column = column
         self.message = msg
+
+class CompilerLimitError(CompilerError):
+    '''Error thrown when a clause cannot be expressed in Python (too deeply nested).'''
+
+    def __init__(self, filename, msg):
+        self.filename = filename
+        self.line = 0
+        self.column = 0
+        self.message = msg
